@@ -69,8 +69,39 @@ class Monitor:
             return ub
         return 2 / (2 - asn.margin / ub)
 
+    def install_spies(self, run):
+        """every call of an assertion's test - from set_p_values or from the sample-size routines - is given numbers
+        in [0, u] for the u the test holds at that moment"""
+        import numpy as _np
+        for cid, con in run.contests.items():
+            for key, asn in con.assertions.items():
+                t = asn.test
+                if "_c06_inner" in t.__dict__:
+                    continue
+                inner = t.test
+
+                def spy(x, _t=t, _inner=inner, _k=(cid, key), **kw):
+                    self.seen[_k] = float(_t.u)
+                    try:
+                        arr = _np.asarray(x, dtype=float)
+                        if arr.size and (float(_np.nanmax(arr)) > float(_t.u) * (1 + 1e-12) + 1e-12 or float(_np.nanmin(arr)) < -1e-12):
+                            self.out.violate("C06.a", f"in-test/{run.world['contests'][_k[0]]['audit_type']}",
+                                             f"{_k[0]}/{_k[1]}: the test was run on values in [{float(_np.nanmin(arr))!r}, "
+                                             f"{float(_np.nanmax(arr))!r}] while its bound was u={float(_t.u)!r}")
+                    except Exception:
+                        pass
+                    return _inner(x, **kw)
+
+                t.__dict__["_c06_inner"] = inner
+                t.test = spy
+
+    def after_rebuild(self, run, r):
+        self.install_spies(run)
+
     def after_setup(self, run):
         out = self.out
+        self.seen = {}
+        self.install_spies(run)
         if not run.use_style:
             out.probe("style off")
         for cid, con in run.contests.items():
@@ -149,17 +180,7 @@ class Monitor:
         self.last = {k: v[1] for k, v in data.items()}
         # observe the bound in force *while* each test runs (set_p_values comes next)
         self.seen = {}
-        for cid, con in run.contests.items():
-            for key, asn in con.assertions.items():
-                t = asn.test
-                inner = t.__dict__.get("_c06_inner") or t.test
-
-                def spy(x, _t=t, _inner=inner, _k=(cid, key), **kw):
-                    self.seen[_k] = float(_t.u)
-                    return _inner(x, **kw)
-
-                t.__dict__["_c06_inner"] = inner
-                t.test = spy
+        self.install_spies(run)
 
     def after_pvalues(self, run, r, p_max, done):
         for cid, con in run.contests.items():
